@@ -42,6 +42,9 @@ RULE = (
 ASSUMPTIONS = [
     "maps are finite float32 tensors with |v| <= 2 (kornia's dilation encodes 'excluded' as -1e4, so "
     "|v| must stay far below 1e4; NaN/inf maps are outside the quantifier 'all float maps')",
+    "non-zero map values have magnitude >= 1e-30 (the generator flushes smaller ones to 0): float32 "
+    "denormals underflow inside the bilinear crop (0.25 * 1.4e-45 -> 0) and a denormal-valued peak would "
+    "get an all-zero patch - an arithmetic artefact far outside any confidence-map value range",
     "thresholds are float32-exact numbers: torch compares a float32 map with the Python scalar in "
     "float32, so for a threshold such as the double 0.2 the cell float32(0.2) would be 'above' in real "
     "arithmetic and 'not above' in the implementation - a representation artefact, not a property clause",
@@ -332,7 +335,7 @@ def parts(tier):
             strategy=strategy,
             budget={"quick": 1500, "thorough": 40000},
             shards={"quick": 1, "thorough": 16},
-            min_nontrivial={"quick": 60, "thorough": 1500},
+            min_nontrivial={"quick": 170, "thorough": 4000},
         )
     ]
 
